@@ -237,14 +237,14 @@ theorem length_append_take_gt {α : Type} (A T : List α) (n m : Nat) (h : n < A
   simp only [List.length_append, List.length_take]
   omega
 
-/-- the code's page equals the statement's page when scores are computed, the sort is not the
+/-- the code's page equals the statement's page when the sort is not the
 score fast path, `explain` is off, nothing is collapsed and no window hit is rejected.  The
 former hypothesis "the window fits into the fetched hits" is gone: since /repo 089be57 the fetch
 depth is `max(limit, candidate_size, window_size) + 1`, so it follows from the definition for
 every `window_size ≤ MAX_CANDIDATE_SIZE`. -/
 theorem mech_rescore_eq_spec_partial (o : ScoreOps S) (r : Req S) (matched : List (Hit S))
     (rr : RescoreReq) (hrr : r.rescore = some rr)
-    (hsc : scoresComputed r = true) (hnf : isFast r.plan = false) (hne : r.explain = false)
+    (hnf : isFast r.plan = false) (hne : r.explain = false)
     (hnc : r.collapse = none) (hret : r.returnHits = true) (hlim : r.limit ≤ maxCandidate)
     (hwin : rr.window ≤ maxCandidate)
     (hnr : ∀ h ∈ (isort (klt o r.plan) (afterCursor (klt o r.plan) r.cursor matched)).take rr.window,
@@ -252,9 +252,7 @@ theorem mech_rescore_eq_spec_partial (o : ScoreOps S) (r : Req S) (matched : Lis
     (search o r matched).hits = (Spec.search o r matched).hits ∧
     (search o r matched).next = (Spec.search o r matched).next ∧
     (search o r matched).total = (Spec.search o r matched).total := by
-  have hseen : matched.map (seen o r) = matched := by
-    have : seen o r = id := by funext h; simp [seen, hsc]
-    rw [this, List.map_id]
+  have hseen : matched.map (seen o r) = matched := map_seen o r matched
   have hk : r.limit < topKOf r := by
     unfold topKOf
     rw [if_pos hret]
@@ -381,7 +379,7 @@ window 2 within the 4 fetched hits, nothing rejected -/
 example :
     let r := { baseReq with plan := [⟨.score, false⟩], rescore := some ⟨2, .total⟩ }
     (search intOps r matchedW).hits = (Spec.search intOps r matchedW).hits :=
-  (mech_rescore_eq_spec_partial intOps _ matchedW ⟨2, .total⟩ rfl (by decide) (by decide) rfl rfl rfl
+  (mech_rescore_eq_spec_partial intOps _ matchedW ⟨2, .total⟩ rfl (by decide) rfl rfl rfl
     (by decide) (by decide) (by decide)).1
 
 private def matchedD : List (Hit Int) :=
